@@ -11,6 +11,36 @@
     static-local initializer, call from an unreferenced static inline function, static-local initializer INSIDE an
     unreferenced static inline function) x placement: emitted set == reachable set (readelf), program links and
     prints the model's value.
+(b2) the KIND of reference as a dimension of (b): 49 kinds besides the plain call (models/c15_linkage.py REF_KINDS).
+    EVALUATED references (the function must be emitted): &f, *f, f as a value (cast, comma, argument, ?: operand,
+    _Generic result), initializer of an automatic / static-local pointer, struct, array, compound literal; the size
+    expression of a VLA TYPE NAME in sizeof (`sizeof(char[f(n)])`, also [f(n)][2] and [2][f(n)]), the bound of a VLA
+    declaration / typedef / typeof / pointer-to-VLA; second / third / omitted operand of ?:, the selected association
+    of _Generic, statement expression, for-init, switch body.  NOT evaluated or never executed (emission is FREE, but
+    the unit must link and print the model's value): sizeof f(n), sizeof &f, sizeof(char[sizeof f(n)]), sizeof of a
+    statement expression, _Alignof(f(n)), _Alignof(char[f(n)]), typeof(f(n)), controlling expression and unselected
+    association of _Generic, 1 ? x : f(n), 0 && f(n), 1 || f(n), if (0), while (0), after goto.
+    uniform: every edge and every root reference of the graph has kind K - every graph with self-loops on <= 2
+    functions x every root set x root kinds {call, static-local-init, dead-inline} (thorough: all 5 root kinds, both
+    placements, and every graph without self-loops on 3 functions x {call, dead-inline});  mixed: every assignment
+    of {call, K} to the edges and root references of the 2-function graphs (quick: without self-loops) that uses
+    both.  Judged: must-be-emitted (reachable over evaluated references) <= emitted <= may-be-emitted (reachable over
+    all references), no undefined reference to a static function, links, prints the model's value - which the same
+    unit compiled by gcc -O0 must print too (else skipped).  64 graphs per translation unit (disjoint names).
+(s) ONE identifier declared at several SCOPES of one unit (models/c15_linkage.py scope_model; C11 6.2.1, 6.2.2p4/p7):
+    slots  [F0] run(o, P) { [A] . { [B] . { [C] . } . } . } [F1] run2(o) { [D] . } end(o) { . }  with
+    F0 in {-, extern, tentative, initialised, static, static initialised}, A in {-, extern, static, static
+    initialised, automatic, parameter}, B, C in {-, extern, static, static initialised, automatic}, F1 in {-, extern,
+    tentative, initialised, static}, D in {-, extern, static}: every combination with <= 3 declarations (thorough:
+    all 8933 well-defined ones) x {int, _Thread_local int, int[2] with extern T[] declarations} x option.  Each `.`
+    is a probe that reads the object the identifier denotes there and stores a fresh value; the other unit (gcc)
+    defines the external object unless the unit under test does, runs everything twice and prints every probe and
+    the external object as IT sees it.  Expected rows from the model (a block-scope extern has the linkage of the
+    visible prior declaration if that has linkage, else EXTERNAL linkage - also when a block-scope static or an
+    automatic object of that name is visible), confirmed by a gcc twin; the symbol table is checked with the
+    constraints of (a) (undefined reference present iff the external object is used and not defined here).
+    Combinations in which the identifier would get both linkages (6.2.2p7, undefined) are left out and counted.
+    60 cases per translation unit (identifiers v<k>).
 (c) every 2-unit (and 3-unit) link set, unit = object form x function form: link succeeds iff the model says
     well-formed; output == model == gcc twin.
 (d) address formation programs x {non-PIC, -fPIC exe, -fPIC -shared + main (non-PIC and PIC), -static}: output
@@ -40,7 +70,7 @@ from vlib import core
 from models import c15_linkage as L
 
 LEVEL = "exploration"
-BUDGET = {"quick": 900, "thorough": 5400}
+BUDGET = {"quick": 2400, "thorough": 7200}
 TMO = 300                       # per-process wall limit: generous, the machine may be heavily loaded
 NOX = "-Wl,-z,noexecstack"
 
@@ -419,25 +449,46 @@ def _a_batch(args):
 ROOT_KINDS = ["call", "file-init", "static-local-init", "dead-inline", "dead-inline-static-local-init"]
 
 
-def b_source(case, idx=0, pfx=""):
-    n, edges, roots, kind, place = case["n"], set(map(tuple, case["edges"])), case["roots"], case["kind"], case["place"]
+def b_kinds(case):
+    """(edges, kinds of the edges, roots, kinds of the root references): every kind is 'call' unless the case says so"""
+    edges = [tuple(e) for e in case["edges"]]
+    return edges, list(case.get("ek") or ["call"] * len(edges)), list(case["roots"]), list(case.get("rk") or ["call"] * len(case["roots"]))
+
+
+def b_plain(case):
+    return not case.get("ek") and not case.get("rk")
+
+
+def b_source(case, idx=0, pfx="", helpers=True):
+    n, roots, kind, place = case["n"], case["roots"], case["kind"], case["place"]
+    edges, ek, roots, rk = b_kinds(case)
+    kind_of = dict(zip(edges, ek))
     F = pfx + "f"
     protos = ["static inline unsigned %s%d(int d);" % (F, i) for i in range(n)]
+    if not b_plain(case) and helpers:
+        protos.insert(0, L.REF_HELPERS.rstrip("\n"))
     defs = []
     for i in range(n):
-        body = "".join(" + %du * %s%d(d - 1)" % (j + 2, F, j) for j in range(n) if (i, j) in edges)
-        defs.append("static inline unsigned %s%d(int d) { if (d <= 0) return %du; return %du%s; }" % (F, i, i + 1, i + 1, body))
+        pre, body = "", ""
+        for j in range(n):
+            if (i, j) in kind_of:
+                p, e = L.ref_code(kind_of[(i, j)], "%s%d" % (F, j), "d - 1", "%d_%d" % (i, j))
+                pre += p + " " if p else ""
+                body += " + %du * %s" % (j + 2, e)
+        defs.append("static inline unsigned %s%d(int d) { if (d <= 0) return %du; %sreturn %du%s; }" % (F, i, i + 1, pre, i + 1, body))
     tab = ", ".join(["%s%d" % (F, r) for r in roots] + ["0"])
     loop = "unsigned s = 0; for (int i = 0; t[i]; i++) s = s * 31u + t[i](d); return s;"
+    rcode = [L.ref_code(k, "%s%d" % (F, r), "d", "r%d" % r) for r, k in zip(roots, rk)]
+    rbody = "".join(p + " " for p, e in rcode if p) + " ".join("s = s * 31u + %s;" % e for p, e in rcode)
     if kind == "call":
-        ent = ["unsigned e%d(int d) { unsigned s = 0; %s return s; }" % (idx, " ".join("s = s * 31u + %s%d(d);" % (F, r) for r in roots))]
+        ent = ["unsigned e%d(int d) { unsigned s = 0; %s return s; }" % (idx, rbody)]
     elif kind == "file-init":
         ent = ["unsigned (*t%d[])(int) = { %s };" % (idx, tab),
                "unsigned e%d(int d) { unsigned (**t)(int) = t%d; %s }" % (idx, idx, loop)]
     elif kind == "static-local-init":
         ent = ["unsigned e%d(int d) { static unsigned (*t[])(int) = { %s }; %s }" % (idx, tab, loop)]
     elif kind == "dead-inline":
-        ent = ["static inline unsigned u%d(int d) { unsigned s = 0; %s return s; }" % (idx, " ".join("s = s * 31u + %s%d(d);" % (F, r) for r in roots)),
+        ent = ["static inline unsigned u%d(int d) { unsigned s = 0; %s return s; }" % (idx, rbody),
                "unsigned e%d(int d) { return 12345u + d; }" % idx]
     else:       # the only references sit in the initializer of a static local of a function that is itself unreferenced
         ent = ["static inline unsigned u%d(int d) { static unsigned (*t[])(int) = { %s }; %s }" % (idx, tab, loop),
@@ -446,27 +497,31 @@ def b_source(case, idx=0, pfx=""):
     return "\n".join(parts) + "\n"
 
 
-def b_model(case):
-    n, edges, roots, kind = case["n"], set(map(tuple, case["edges"])), case["roots"], case["kind"]
-    live = L.reachable(n, edges, roots) if not kind.startswith("dead-inline") else set()
-    D = 3
+def b_model3(case):
+    """(required, allowed, value): functions that must be emitted, functions that may be emitted, value of e(3)"""
+    n, kind = case["n"], case["kind"]
+    edges, ek, roots, rk = b_kinds(case)
     if kind.startswith("dead-inline"):
-        val = 12345 + D
-    else:
-        val = 0
-        for r in roots:
-            val = (val * 31 + L.graph_value(n, edges, r, D)) & 0xFFFFFFFF
-    return live, val
+        return set(), set(), 12345 + 3
+    if kind != "call":
+        rk = ["call"] * len(roots)                   # the roots are referenced by an initializer: always a reference
+    return L.ref_graph_model(n, edges, ek, roots, rk, 3)
+
+
+def b_model(case):
+    req, allowed, val = b_model3(case)
+    return req, val
 
 
 def b_class(case, live):
-    return "root=%s,place=%s%s" % (case["kind"], case["place"], ",fPIC" if case.get("pic") else "")
+    return "root=%s,place=%s%s%s" % (case["kind"], case["place"], ",fPIC" if case.get("pic") else "",
+                                     ",ref=%s" % case["ref"] if case.get("ref") else "")
 
 
 def b_compile(chibicc, wd, case, idx):
     """compile one graph unit, static check. returns (status, devs, obj, files)"""
     src = b_source(case, idx)
-    live, val = b_model(case)
+    live, allowed, val = b_model3(case)
     u = os.path.join(wd, "g%d.c" % idx)
     o = os.path.join(wd, "g%d.o" % idx)
     write(u, src)
@@ -492,11 +547,11 @@ def b_compile(chibicc, wd, case, idx):
         devs.append("live-function-not-emitted")
     elif [s for s in syms if re.fullmatch(r"[fu]\d+", s["name"]) and s["bind"] != "LOCAL"]:
         devs.append("global-reference-to-static-inline")
-    if emitted - live:
+    if emitted - allowed:
         devs.append("dead-function-emitted")
     if [s for s in syms if s["name"] == "u%d" % idx and s["ndx"] != "UND"]:
         devs.append("dead-function-emitted")
-    files["expected.txt"] = "live=%s emitted=%s value=%u\n" % (sorted(live), sorted(emitted), val)
+    files["expected.txt"] = "must be emitted=%s may be emitted=%s emitted=%s value=%u\n" % (sorted(live), sorted(allowed), sorted(emitted), val)
     return "ok", sorted(set(devs)), o, files
 
 
@@ -562,9 +617,43 @@ def _b_batch(args):
     return [tuple(x) for x in res]
 
 
-def b_group_eval(chibicc, wd, cases):
-    """Several graphs in ONE translation unit (disjoint name spaces g<k>_): returns per case (status, devs)."""
-    src = "".join(b_source(c, idx=k, pfx="g%d_" % k) for k, c in enumerate(cases))
+def b_twin_values(wd, src, idxs):
+    """the same unit(s) compiled by gcc -O0 and run: {idx: value printed} or a status string"""
+    u, o = os.path.join(wd, "twin.c"), os.path.join(wd, "twin.o")
+    write(u, src)
+    st, out, err = px(["gcc", "-std=gnu11", "-O0", "-w", "-c", "-o", o, u])
+    if st == "timeout":
+        return "harness-timeout"
+    if st != 0:
+        return "skip-ref-rejected"
+    drv = os.path.join(wd, "drv.c")
+    write(drv, b_driver(idxs))
+    st, out = link_run([drv, o], os.path.join(wd, "prog_gcc"))
+    if st == "timeout":
+        return "harness-timeout"
+    if st != "ok":
+        return "skip-oracle-disagreement"
+    return dict(l.split() for l in out.splitlines() if len(l.split()) == 2)
+
+
+def b_group_eval(chibicc, wd, cases, twin=False):
+    """Several graphs in ONE translation unit (disjoint name spaces g<k>_): returns per case (status, devs).
+    twin: the gcc-compiled twin of the unit must print the model's value, else the case is skipped."""
+    def group_source(ks):
+        return "".join(b_source(cases[k], idx=k, pfx="g%d_" % k, helpers=(k == ks[0])) for k in ks)
+    allk = list(range(len(cases)))
+    models = [b_model3(c) for c in cases]
+    skip = {}
+    if twin:
+        tv = b_twin_values(wd, group_source(allk), allk)
+        if tv == "harness-timeout":
+            return [("harness-timeout", [])] * len(cases)
+        if not isinstance(tv, dict):
+            return None                                   # every graph is looked at alone by the caller
+        for k in allk:
+            if tv.get(str(k)) != str(models[k][2]):
+                skip[k] = "skip-oracle-disagreement"
+    src = group_source(allk)
     u, o = os.path.join(wd, "grp.c"), os.path.join(wd, "grp.o")
     write(u, src)
     st, out, err = px([chibicc, "-c", "-o", o, u])
@@ -592,17 +681,17 @@ def b_group_eval(chibicc, wd, cases):
             devs[int(m.group(1))].append("dead-function-emitted")
     vals = []
     for k, c in enumerate(cases):
-        live, val = b_model(c)
+        live, allowed, val = models[k]
         vals.append(val)
         if live - emitted[k]:
             devs[k] = ["live-function-not-emitted"]
-        elif emitted[k] - live:
+        elif emitted[k] - allowed:
             devs[k].append("dead-function-emitted")
     clean = [k for k in range(len(cases)) if not devs[k]]
     if clean:
         if len(clean) < len(cases):
             # the graphs whose symbols deviate are re-examined alone by the caller; the others are still linked and run
-            write(u, "".join(b_source(cases[k], idx=k, pfx="g%d_" % k) for k in clean))
+            write(u, group_source(clean))
             st, out, err = px([chibicc, "-c", "-o", o, u])
             if st == "timeout":
                 return [("harness-timeout", [])] * len(cases)
@@ -619,17 +708,18 @@ def b_group_eval(chibicc, wd, cases):
         for k in clean:
             if got.get(str(k)) != str(vals[k]):
                 devs[k].append("program-output-differs")
-    return [("ok", sorted(set(d))) for d in devs]
+    return [(skip[k], []) if k in skip else ("ok", sorted(set(devs[k]))) for k in allk]
 
 
 def _b_multi(args):
-    """n=4 layer: groups of GRP graphs per translation unit; anything unusual is re-examined alone."""
-    chibicc, wd, cases, GRP = args
+    """groups of GRP graphs per translation unit; anything unusual is re-examined alone."""
+    chibicc, wd, cases, GRP = args[:4]
+    twin = len(args) > 4 and args[4]
     os.makedirs(wd, exist_ok=True)
     out = []
     for g in range(0, len(cases), GRP):
         grp = cases[g:g + GRP]
-        r = b_group_eval(chibicc, wd, grp)
+        r = b_group_eval(chibicc, wd, grp, twin)
         for k, case in enumerate(grp):
             if r is not None and r[k][0] == "ok" and not r[k][1]:
                 out.append((case, "ok", [], None, None))
@@ -637,12 +727,17 @@ def _b_multi(args):
             if r is not None and r[k][0] != "ok":
                 out.append((case, r[k][0], [], None, None))
                 continue
-            st, devs, files = eval_b_single(chibicc, wd, case)          # alone
+            st, devs, files = eval_b_single(chibicc, wd, case, twin)    # alone
             if st == "ok" and not devs and r is not None and r[k][1]:
                 # deviates only in the company of the other graphs: keep the group as the reproducer
                 out.append((case, "ok", r[k][1], {"unit.c": b_source(case)}, {"group": grp, "k": k}))
             else:
                 out.append((case, st, devs, files if devs else None, None))
+    for f in os.listdir(wd):
+        try:
+            os.unlink(os.path.join(wd, f))
+        except OSError:
+            pass
     return out
 
 
@@ -657,13 +752,274 @@ def b_cases(n, places, selfloops=True):
                     yield {"part": "b", "n": n, "edges": edges, "roots": roots, "kind": kind, "place": place}
 
 
-def eval_b_single(chibicc, wd, case):
+def eval_b_single(chibicc, wd, case, twin=False):
+    if twin:
+        tv = b_twin_values(wd, b_source(case, 0), [0])
+        if not isinstance(tv, dict):
+            return tv, [], {}
+        if tv.get("0") != str(b_model3(case)[2]):
+            return "skip-oracle-disagreement", [], {}
     st, devs, obj, files = b_compile(chibicc, wd, case, 0)
     if st == "ok" and obj:
         r = b_link(wd, [(0, obj, b_model(case)[1])])
         if r != "timeout" and r[0] and "live-function-not-emitted" not in devs:
             devs = devs + [r[0]]
     return st, devs, files
+
+
+def b_ref_cases(quick):
+    """part (b2): the KIND of reference as a dimension.  Every kind K of L.REF_KINDS (other than the plain call):
+    uniform = every edge and every root reference of the graph is of kind K (n <= 2 with self-loops; thorough also
+    n = 3 without self-loops); mixed = every assignment of {call, K} to the edges and root references of the
+    2-node graphs that uses both (quick: without self-loops)."""
+    kinds = [k for k in L.REF_ORDER if k != "call"]
+    out = []
+
+    def graphs(n, loops):
+        pairs = [(i, j) for i in range(n) for j in range(n) if loops or i != j]
+        for mask in range(1 << len(pairs)):
+            yield [pairs[k] for k in range(len(pairs)) if mask >> k & 1]
+    for K in kinds:
+        rootkinds = ["call", "static-local-init", "dead-inline"] if quick else ROOT_KINDS
+        for n in (1, 2):
+            for edges in graphs(n, True):
+                for rmask in range(1 << n):
+                    roots = [i for i in range(n) if rmask >> i & 1]
+                    for kind in rootkinds:
+                        for place in (["after"] if quick else ["after", "before"]):
+                            out.append({"part": "b", "n": n, "edges": edges, "roots": roots, "kind": kind, "place": place,
+                                        "ek": [K] * len(edges), "rk": [K] * len(roots) if kind in ("call", "dead-inline") else [], "ref": K})
+        if not quick:
+            for edges in graphs(3, False):
+                for rmask in range(1 << 3):
+                    roots = [i for i in range(3) if rmask >> i & 1]
+                    for kind in ("call", "dead-inline"):
+                        out.append({"part": "b", "n": 3, "edges": edges, "roots": roots, "kind": kind, "place": "after",
+                                    "ek": [K] * len(edges), "rk": [K] * len(roots), "ref": K})
+        pairs = [(i, j) for i in range(2) for j in range(2) if not quick or i != j]
+        for ea in itertools.product((None, "call", K), repeat=len(pairs)):
+            for ra in itertools.product((None, "call", K), repeat=2):
+                used = set(ea) | set(ra)
+                if "call" not in used or K not in used:
+                    continue                                  # uniform assignments are enumerated above
+                edges = [p for p, a in zip(pairs, ea) if a]
+                roots = [r for r, a in zip(range(2), ra) if a]
+                out.append({"part": "b", "n": 2, "edges": edges, "roots": roots, "kind": "call", "place": "after",
+                            "ek": [a for a in ea if a], "rk": [a for a in ra if a], "ref": K, "mixed": True})
+    return out
+
+
+# ================================================================================================ part (s)
+# Declarations of one identifier ACROSS SCOPES (models/c15_linkage.py scope_model): which object does each use denote?
+S_TYPES = {     # key: (declarator suffix, incomplete suffix for extern declarations, read, write, init, tls)
+    "int": ("", "", "%s", "%s = %s", "%d", False),
+    "tls": ("", "", "%s", "%s = %s", "%d", True),
+    "arr": ("[2]", "[]", "%s[1]", "%s[1] = %s", "{0, %d}", False),
+}
+S_PACK = 60
+
+
+def s_decl(form, slot, V, tk):
+    suf, inc, rd, wr, ini, tls = S_TYPES[tk]
+    t = "_Thread_local " if tls else ""
+    i = L.SCOPE_SLOTS.index(slot)
+    return {"E": "extern %sint %s%s;" % (t, V, inc), "bE": "extern %sint %s%s;" % (t, V, inc),
+            "T": "%sint %s%s;" % (t, V, suf), "I": "%sint %s%s = %s;" % (t, V, suf, ini % L.SCOPE_INIT["I"]),
+            "S": "static %sint %s%s;" % (t, V, suf), "SI": "static %sint %s%s = %s;" % (t, V, suf, ini % L.SCOPE_INIT["SI"]),
+            "bS": "static %sint %s%s;" % (t, V, suf), "bSI": "static %sint %s%s = %s;" % (t, V, suf, ini % (L.SCOPE_INIT["bSI"] + i)),
+            "bA": "int %s%s = %s;" % (V, suf, ini % (L.SCOPE_INIT["bA"] + i)), "bP": "", "-": ""}[form]
+
+
+def s_unit(case, k, tk):
+    """the unit under test for one case; the identifier is v<k>, the functions are u<k>_run / _run2 / _end"""
+    m = L.scope_model(case)
+    V = "v%d" % k
+    rd, wr = S_TYPES[tk][2], S_TYPES[tk][3]
+    f = dict((sl, case.get(sl, "-")) for sl in L.SCOPE_SLOTS)
+
+    def probe(p):
+        if not m["probes"][p]:
+            return ""
+        i = L.SCOPE_PROBES.index(p)
+        return "o[%d] = %s; %s; " % (i, rd % V, wr % (V, 100 + i))
+
+    def d(slot):
+        t = s_decl(f[slot], slot, V, tk)
+        return t + " " if t else ""
+    lines = []
+    if f["F0"] != "-":
+        lines.append(d("F0").strip())
+    lines.append("void u%d_run(int *o, int %s) { %s%s{ %s%s{ %s%s} %s} %s}" % (
+        k, V if f["A"] == "bP" else "c15_p", d("A"), probe("pA"), d("B"), probe("pB"), d("C"), probe("pC"), probe("pB2"), probe("pA2")))
+    if f["F1"] != "-":
+        lines.append(d("F1").strip())
+    lines.append("void u%d_run2(int *o) { %s%s}" % (k, d("D"), probe("pD")))
+    lines.append("void u%d_end(int *o) { %s}" % (k, probe("pE")))
+    return "\n".join(lines) + "\n"
+
+
+def s_companion(cases, ks, tk):
+    """the other translation unit (compiled by gcc): defines the external object unless the unit under test does,
+    runs the probes twice and prints what they saw and the external object as seen from here"""
+    suf, inc, rd, wr, ini, tls = S_TYPES[tk]
+    t = "_Thread_local " if tls else ""
+    np = len(L.SCOPE_PROBES)
+    s = "#include <stdio.h>\n"
+    for case, k in zip(cases, ks):
+        m = L.scope_model(case)
+        V = "v%d" % k
+        if m["x_def"] != "none":
+            s += "extern %sint %s%s;\n" % (t, V, suf)
+        else:
+            s += "%sint %s%s = %s;\n" % (t, V, suf, ini % L.SCOPE_INIT["companion"])
+        s += "void u%d_run(int *, int), u%d_run2(int *), u%d_end(int *);\n" % (k, k, k)
+        s += ("static void show%d(void) {\n  int o[%d];\n  for (int r = 1; r <= 2; r++) {\n    for (int i = 0; i < %d; i++) o[i] = -1;\n"
+              "    u%d_run(o, 59 + r); u%d_run2(o); u%d_end(o);\n    printf(\"%d\");\n    for (int i = 0; i < %d; i++) printf(\" %%d\", o[i]);\n"
+              "    printf(\" %%d\\n\", %s);\n    %s;\n  }\n}\n" % (k, np, np, k, k, k, k, np, rd % V, wr % (V, 9)))
+    s += "int main(void) {\n" + "".join("  show%d();\n" % k for k in ks) + "  return 0;\n}\n"
+    return s
+
+
+def s_expected(case, k):
+    m = L.scope_model(case)
+    return ["%d %s" % (k, " ".join(str(x) for x in row)) for row in L.scope_expected(case, m)]
+
+
+def s_sym_model(case, tk):
+    """what the symbol table must say about the identifier: arguments of L.check_object_symbol"""
+    m = L.scope_model(case)
+    tls = S_TYPES[tk][5]
+    if m["x_declared"]:
+        return {"linkage": "external", "defkind": m["x_def"], "tls": tls}, m["x_referenced"]
+    if m["n_declared"]:
+        return {"linkage": "internal", "defkind": m["n_def"], "tls": tls}, True
+    return {"linkage": None, "defkind": "none", "tls": tls}, False
+
+
+def s_first_difference(case, got, exp):
+    """class of the first probe whose value differs: the declaration it denotes and the prior declaration visible
+    where that declaration stands"""
+    m = L.scope_model(case)
+    for g, e in zip(got, exp):
+        gv, ev = g.split()[1:], e.split()[1:]
+        if len(gv) != len(ev):
+            break
+        for i, (a, b) in enumerate(zip(gv, ev)):
+            if a != b:
+                if i >= len(L.SCOPE_PROBES):
+                    return "external-object-as-seen-by-the-other-unit"
+                sl = m["probes"][L.SCOPE_PROBES[i]]
+                if not sl:
+                    return "probe"
+                f = case[sl]
+                if f in ("E", "bE"):
+                    return "use-of-%s,visible-prior=%s" % ("block-extern" if f == "bE" else "file-extern", L.SCOPE_PRIOR_NAME[m["prior"].get(sl)])
+                return "use-of-%s" % L.SCOPE_PRIOR_NAME[f]
+    return "output"
+
+
+def s_eval(chibicc, wd, cases, tk, fcommon, pic, base=0):
+    """cases packed in one unit (identifiers v<k>).  -> [(status, [(class, deviation)], files)] per case"""
+    ks = list(range(base, base + len(cases)))
+    opt = "-fcommon" if fcommon else "-fno-common"
+    picf = ["-fPIC"] if pic else []
+    unit = "".join(s_unit(c, k, tk) for c, k in zip(cases, ks))
+    comp = s_companion(cases, ks, tk)
+    u, cpath = os.path.join(wd, "unit.c"), os.path.join(wd, "comp.c")
+    write(u, unit)
+    write(cpath, comp)
+
+    def halves(why):
+        if len(cases) == 1:
+            return [why]
+        h = len(cases) // 2
+        return s_eval(chibicc, wd, cases[:h], tk, fcommon, pic, base) + s_eval(chibicc, wd, cases[h:], tk, fcommon, pic, base + h)
+    T = ("harness-timeout", [], {})
+    st, out, err = px(["gcc", "-std=c11", "-O0", "-w"] + picf + ["-c", "-o", os.path.join(wd, "comp.o"), cpath])
+    if st == "timeout":
+        return [T] * len(cases)
+    if st != 0:
+        raise core.HarnessError("part (s): the companion unit does not compile: " + err[-500:])
+    st, out, err = px(["gcc", "-std=c11", "-pedantic-errors", "-O0", "-w", opt] + picf + ["-c", "-o", os.path.join(wd, "unit_gcc.o"), u])
+    if st == "timeout":
+        return [T] * len(cases)
+    if st != 0:
+        return halves(("skip-ref-rejected", [], {"note": err[-300:]}))
+    gs, gout = link_run([os.path.join(wd, "unit_gcc.o"), os.path.join(wd, "comp.o")], os.path.join(wd, "p_gcc"), pie=pic)
+    if gs == "timeout":
+        return [T] * len(cases)
+    if gs != "ok":
+        return halves(("skip-oracle-disagreement", [], {"note": "gcc twin: %s %s" % (gs, gout[-200:])}))
+    ggot = {}
+    for l in gout.splitlines():
+        ggot.setdefault(l.split(" ", 1)[0], []).append(l)
+    co = os.path.join(wd, "unit.o")
+    st, out, err = px([chibicc, opt] + picf + ["-c", "-o", co, u])
+    if st == "timeout":
+        return [T] * len(cases)
+    if st != 0:
+        return halves(("ok", [("unit", "valid-unit-rejected")], {"unit.c": unit, "chibicc.err": err[-1000:]}))
+    syms, secs = readelf(co)
+    if syms is None:
+        return [T] * len(cases)
+    cs, cout = link_run([co, os.path.join(wd, "comp.o")], os.path.join(wd, "p_cc"), pie=pic)
+    if cs == "timeout":
+        return [T] * len(cases)
+    if cs != "ok" and len(cases) > 1:
+        return halves(None)
+    cgot = {}
+    if cs == "ok":
+        for l in cout.splitlines():
+            cgot.setdefault(l.split(" ", 1)[0], []).append(l)
+    res = []
+    for case, k in zip(cases, ks):
+        exp = s_expected(case, k)
+        if ggot.get(str(k)) != exp:
+            res.append(("skip-oracle-disagreement", [], {"note": "gcc twin %r, model %r" % (ggot.get(str(k)), exp)}))
+            continue
+        m, referenced = s_sym_model(case, tk)
+        size, align = (8, 4) if tk == "arr" else (4, 4)
+        devs = [(L.obj_class(dict(m, ntent=0), fcommon), d)
+                for d in L.check_object_symbol("v%d" % k, m, referenced, fcommon, size, align, syms, secs)]
+        got = cgot.get(str(k), [])
+        files = {"unit.c": s_unit(case, k, tk), "companion.c": s_companion([case], [k], tk), "expected.txt": "\n".join(exp) + "\n"}
+        if cs != "ok":
+            devs.append(("program", "link-fails-with-companion" if cs == "link-fail" else "program-" + cs))
+            files["detail.txt"] = cout
+        elif got != exp:
+            devs.append((s_first_difference(case, got, exp), "denotes-another-object"))
+            files["got.txt"] = "\n".join(got) + "\n"
+        res.append(("ok", devs, files))
+    return res
+
+
+def _s_batch(args):
+    chibicc, wd, jobs = args
+    os.makedirs(wd, exist_ok=True)
+    out = []
+    for cases, tk, fcommon, pic in jobs:
+        r = s_eval(chibicc, wd, cases, tk, fcommon, pic)
+        out += [(c, tk, fcommon, pic) + tuple(x) for c, x in zip(cases, r)]
+    for f in os.listdir(wd):
+        try:
+            os.unlink(os.path.join(wd, f))
+        except OSError:
+            pass
+    return out
+
+
+def s_cases(maxdecl):
+    """(valid cases with <= maxdecl declarations, number of combinations left out as undefined/invalid)"""
+    out, skipped = [], 0
+    for fs in itertools.product(*[L.SCOPE_FORMS[sl] for sl in L.SCOPE_SLOTS]):
+        if sum(1 for f in fs if f != "-") > maxdecl or all(f == "-" for f in fs):
+            continue
+        case = dict((sl, f) for sl, f in zip(L.SCOPE_SLOTS, fs) if f != "-")
+        if L.scope_model(case)["status"] == "ok":
+            out.append(case)
+        else:
+            skipped += 1
+    return out, skipped
 
 
 # ================================================================================================ part (c)
@@ -1336,6 +1692,10 @@ def replay_main(path):
             got = r[case["k"]][1] if r else ["valid-unit-rejected"]
         elif part == "b":
             st, got, files = eval_b_single(chibicc, wd, case)
+        elif part == "s":
+            r = s_eval(chibicc, wd, [case["case"]], case["type"], case["fcommon"], case["pic"])
+            print(r[0][2].get("got.txt", ""), r[0][2].get("expected.txt", ""))
+            got = [d for c, d in r[0][1] if c == case["cls"]]
         elif part == "c":
             n = len(case["objs"])
             for i in range(n):
@@ -1467,6 +1827,61 @@ def run(ctx):
     done.append("(a) sequences <= %d" % maxlen)
     phase = {"a": round(time.time() - ctx.t0, 1)}
 
+    # ------------------------------------------------------------------ (s) one identifier declared at several scopes
+    if ctx.out_of_time(reserve=120):
+        ctx.incomplete("deadline: finished %s; declarations across scopes not run" % done)
+    else:
+        maxdecl = 3 if quick else len(L.SCOPE_SLOTS)
+        scases, sskipped = s_cases(maxdecl)
+        counts["skipped_undefined"] += sskipped
+        configs = [("int", True, False), ("int", False, False), ("tls", True, False), ("arr", True, False)]
+        if not quick:
+            configs += [("tls", False, False), ("arr", False, False), ("int", True, True), ("tls", True, True), ("arr", True, True)]
+        jobs = []
+        for tk, fc, pic in configs:
+            sel = [c for c in scases if not (tk == "arr" and c.get("A") == "bP")]     # the parameter is a plain int
+            jobs += [(g, tk, fc, pic) for g in core.chunks(sel, S_PACK)]
+        res = core.pmap(_s_batch, [(ctx.chibicc, os.path.join(ctx.work, "s%d" % i), b) for i, b in enumerate(shard(ctx, jobs, 2))])
+        s_judged = 0
+        s_classes = set()
+        s_devs = {}
+        for batch in res:
+            for case, tk, fc, pic, st, devs, files in batch:
+                if not tally(st):
+                    if st in ("skip-oracle-disagreement", "skip-ref-rejected") and len(notes) < 10:
+                        notes.append("s %s %s: %s" % (case, tk, files.get("note", "")[:200]))
+                    continue
+                s_judged += 1
+                m = L.scope_model(case)
+                s_classes.add((tuple(sorted(set(m["entity"].values()))), tuple(sorted(set(str(x) for x in m["prior"].values())))))
+                if len(case) > 1:
+                    counts["distinct_nontrivial"] += 1
+                if s_judged % 1999 == 1:
+                    ctx.sample({"part": "s", "case": case, "type": tk, "unit": s_unit(case, 0, tk)})
+                for cls, dev in devs:
+                    s_devs.setdefault((cls, dev), []).append((tk, fc, pic, case, files))
+        for (cls, dev), hits in sorted(s_devs.items()):
+            # a deviation that shows with plain int objects does not depend on the type; otherwise name the types
+            tks = sorted(set(h[0] for h in hits))
+            tag = "" if "int" in tks else "," + "+".join(tks)
+            hits.sort(key=lambda h: (h[0] != "int", len(h[3]), h[2], not h[1]))
+            tk, fc, pic, case, files = hits[0]
+            c2 = {"part": "s", "case": case, "type": tk, "fcommon": fc, "pic": pic, "cls": cls, "deviation": dev}
+            f2 = dict(files)
+            f2["case.json"] = json.dumps(c2)
+            ctx.violation("C15|s-scope|%s%s|%s" % (cls, tag, dev),
+                          "declarations of one identifier across scopes %s (type %s, %s%s): %s; %d cases of this class" % (
+                              " ".join("%s=%s" % (sl, case[sl]) for sl in L.SCOPE_SLOTS if sl in case), tk,
+                              "-fcommon" if fc else "-fno-common", " -fPIC" if pic else "", dev, len(hits)),
+                          files=f2, replay=REPLAY)
+        if s_judged < len(scases) or len(s_classes) < 10:
+            raise core.HarnessError("part (s) degenerate: %d judged cases, %d classes; %s" % (s_judged, len(s_classes), notes[-3:]))
+        ctx.cover(s_cases=len(scases), s_max_declarations=maxdecl, s_judged=s_judged, s_binding_classes=len(s_classes),
+                  s_configs=["%s%s%s" % (tk, "" if fc else ",fno-common", ",fPIC" if pic else "") for tk, fc, pic in configs],
+                  s_slots=dict((sl, L.SCOPE_FORMS[sl]) for sl in L.SCOPE_SLOTS))
+        done.append("(s) <= %d declarations across scopes" % maxdecl)
+    phase["s"] = round(time.time() - ctx.t0, 1)
+
     # ------------------------------------------------------------------ (b)
     plan = [(1, ["after", "before"], True), (2, ["after", "before"], True), (3, ["after"] if quick else ["after", "before"], True)]
     if not quick:
@@ -1511,10 +1926,71 @@ def run(ctx):
                                   files=f2, replay=REPLAY)
         ctx.cover(**{"b_graphs_n%d" % n: len(cs)})
         done.append("(b) graphs on %d nodes%s" % (n, "" if loops else " (no self-loops)"))
+    phase["b"] = round(time.time() - ctx.t0, 1)
+    if ctx.out_of_time(reserve=120):
+        ctx.incomplete("deadline: finished %s; reference kinds not run" % done)
+    else:
+        cs = b_ref_cases(quick)
+        GRP = 64
+        batches = shard(ctx, cs, GRP * 4)
+        res = core.pmap(_b_multi, [(ctx.chibicc, os.path.join(ctx.work, "br_%d" % i), b, GRP, True) for i, b in enumerate(batches)])
+        r_judged = 0
+        r_kinds = set()
+        r_devs = {}
+        for batch in res:
+            for case, st, devs, files, group in batch:
+                if not tally(st):
+                    if len(notes) < 10:
+                        notes.append("b2 %s: %s" % (case, st))
+                    continue
+                r_judged += 1
+                b_judged += 1
+                live, allowed, val = b_model3(case)
+                r_kinds.add((case["ref"], len(live) > 0, len(allowed) > len(live)))
+                if case["edges"] and case["roots"]:
+                    counts["distinct_nontrivial"] += 1
+                if r_judged % 2999 == 1:
+                    ctx.sample({"part": "b2", "case": case, "unit": b_source(case)[:900]})
+                for dev in devs:
+                    r_devs.setdefault((b_class(dict(case, ref=None), live), bool(group), dev), {}).setdefault(case["ref"], []).append((case, files, group))
+        must_k = set(k[0] for k in L.REF_KINDS if k[3] == "must") - {"call"}
+        may_k = set(k[0] for k in L.REF_KINDS if k[3] == "may")
+        for (cls, grouped, dev), bykind in sorted(r_devs.items()):
+            # a deviation that shows with every kind of a class has a root cause that does not depend on the kind
+            labels = []
+            rest = set(bykind)
+            for name, ks in (("every-evaluated-kind", must_k), ("every-unevaluated-kind", may_k)):
+                if ks <= rest:
+                    labels.append((name, sorted(ks)[0]))
+                    rest -= ks
+            labels += [(k, k) for k in sorted(rest)]
+            for label, k in labels:
+                hits = sorted(bykind[k], key=lambda h: (h[0]["n"], len(h[0]["edges"]), len(h[0]["roots"]), bool(h[0].get("mixed"))))
+                case, files, group = hits[0]
+                live, allowed, val = b_model3(case)
+                c2 = dict(case)
+                c2["deviation"] = dev
+                c2["twin"] = True
+                if group:
+                    c2.update(group)
+                f2 = dict(files or {})
+                f2["case.json"] = json.dumps(c2)
+                ctx.violation("C15|b-liveness|%s,ref=%s%s|%s" % (cls, label, ",only-among-other-graphs" if group else "", dev),
+                              "static inline functions referenced through %s%s: n=%d edges=%s (kinds %s) roots=%s (kinds %s) root-kind=%s: %s "
+                              "(must be emitted=%s, may be emitted=%s)"
+                              % (case["ref"], " mixed with plain calls" if case.get("mixed") else "", case["n"], case["edges"],
+                                 case["ek"], case["roots"], case["rk"], case["kind"], dev, sorted(live), sorted(allowed)),
+                              files=f2, replay=REPLAY)
+        if r_judged < len(cs) * 9 // 10 or len(set(k for k, _, _ in r_kinds)) < len(L.REF_ORDER) - 1:
+            raise core.HarnessError("part (b2) degenerate: %d of %d judged, %d kinds; %s" % (r_judged, len(cs), len(r_kinds), notes[-3:]))
+        ctx.cover(b_ref_cases=len(cs), b_ref_judged=r_judged,
+                  b_ref_kinds_evaluated=[k[0] for k in L.REF_KINDS if k[3] == "must"],
+                  b_ref_kinds_not_evaluated=[k[0] for k in L.REF_KINDS if k[3] == "may"])
+        done.append("(b2) %d reference kinds x graphs on <= %d nodes" % (len(L.REF_ORDER) - 1, 2 if quick else 3))
+    phase["b2"] = round(time.time() - ctx.t0, 1)
     if b_judged < 100 or len(b_live_sizes) < 6:
         raise core.HarnessError("part (b) degenerate: %d judged, %d live-set classes" % (b_judged, len(b_live_sizes)))
     ctx.cover(b_judged=b_judged)
-    phase["b"] = round(time.time() - ctx.t0, 1)
 
     # ------------------------------------------------------------------ (c)
     if ctx.out_of_time(reserve=120):
@@ -1701,6 +2177,10 @@ def run(ctx):
     phase["e"] = round(time.time() - ctx.t0, 1)
     ctx.cover(bounds_completed=done, oracle_notes=notes, phase_end_seconds=phase, **counts)
     ctx.cover(rule="non-trivial = (a) sequence of >= 2 declarations or one that defines; (b) graph with >= 1 edge and >= 1 root; "
+                   "(b2) graph with >= 1 edge and >= 1 root whose references are of one of the 49 non-call kinds of b_ref_kinds_evaluated / "
+                   "b_ref_kinds_not_evaluated (uniform on graphs <= 2 nodes, thorough <= 3; mixed with calls on 2 nodes): "
+                   "must-be-emitted <= emitted <= may-be-emitted; (s) >= 2 declarations of one identifier over the scope slots of "
+                   "s_slots (quick <= 3 declarations, thorough all) x s_configs: every use denotes the object the model says; "
                    "(c) set whose units differ or that the model calls ill-formed; (d) every program x configuration; "
                    "(e) every tuple of >= 2 string literals over the alphabet {'',u8,L,u,U} x texts of length <= 3 over {a,b,NUL} "
                    "(pairs: quick = char x length <= 3, each kind x length <= 2, all kinds x length <= 1, each text of length <= 2 x all kinds; "
@@ -1713,6 +2193,8 @@ def run(ctx):
                "non-static inline definition is emitted are free")
     ctx.assume("gcc 12 -std=c11 -pedantic-errors decides validity of a generated unit together with the model; the system "
                "linker (GNU ld via gcc / via chibicc's own driver) decides link success")
+    ctx.assume("a function named only in operands that are not evaluated or in code that can never run may or may not be emitted; "
+               "GNU forms (statement expression, ?:, typeof, _Alignof expr) are part of the alphabet because chibicc accepts them")
     ctx.assume("liveness graphs on 4 nodes (thorough) are enumerated without self-loops; self-loops are exhaustive for n <= 3")
     ctx.assume("string literals: x86-64 SysV element types (wchar_t = int, char16_t = unsigned short, char32_t = unsigned int, "
                "little endian); two literals may share or overlap storage whenever their bytes agree over the common length")
